@@ -82,7 +82,7 @@ NATIVE['n_trace_corpus'] = dict(
     host='crates/cairo-lang-runner/src/lib.rs',
     harness='native/cairo-lang-runner/n_trace_corpus.rs',
     props={'C04', 'C17'},
-    bound='11 Cairo programs (recursion, arrays, dictionaries, hashes, integer arithmetic, EC, enums/boxes, byte arrays, panics, locals, circuits) '
+    bound='16 Cairo programs (recursion, arrays, dictionaries, hashes, integer arithmetic, EC, enums/boxes, byte arrays, panics, locals, circuits, signed and bounded ints, structs and spans, many-variant enums, felt division, dictionaries in structs) and 14 of the repository examples '
           'x 1-5 functions x <= 3 (quick) / all (thorough) inputs x {linear, equation} solvers, run on the VM',
     functions=[('crates/cairo-lang-runner/src/lib.rs', 'impl SierraCasmRunner', 'run_function_with_starknet_context'),
                ('crates/cairo-lang-sierra-to-casm/src/compiler.rs', None, 'compile')],
